@@ -16,14 +16,29 @@ pub struct EdgeLoaderConfig {
     pub n_vertices: usize,
 }
 
+/// one empty adjacency list per vertex. the vertex count comes from the configuration (or from
+/// counting lines), so a count for which no table can be allocated is a dataset error: `vec![..; n]`
+/// panics ("capacity overflow") when the table would exceed the size of the address space.
+fn adjacency_table(
+    n_vertices: usize,
+) -> Result<Vec<CompactOrderedHashMap<EdgeId, VertexId>>, NetworkError> {
+    let mut table = Vec::new();
+    table.try_reserve_exact(n_vertices).map_err(|e| {
+        NetworkError::DatasetError(format!(
+            "cannot allocate adjacency lists for {} vertices: {}",
+            n_vertices, e
+        ))
+    })?;
+    table.resize(n_vertices, CompactOrderedHashMap::empty());
+    Ok(table)
+}
+
 impl TryFrom<EdgeLoaderConfig> for EdgeLoader {
     type Error = NetworkError;
 
     fn try_from(c: EdgeLoaderConfig) -> Result<Self, Self::Error> {
-        let mut adj: Vec<CompactOrderedHashMap<EdgeId, VertexId>> =
-            vec![CompactOrderedHashMap::empty(); c.n_vertices];
-        let mut rev: Vec<CompactOrderedHashMap<EdgeId, VertexId>> =
-            vec![CompactOrderedHashMap::empty(); c.n_vertices];
+        let mut adj = adjacency_table(c.n_vertices)?;
+        let mut rev = adjacency_table(c.n_vertices)?;
 
         let mut pb = Bar::builder()
             .total(c.n_edges)
